@@ -361,6 +361,18 @@ func (Engine) Execute(run *simcore.Run) {
 		w.allow[i] = allowMask&(1<<uint(i)) != 0
 	}
 	w.val = n.ValAddrs[0].String()
+	// what a later message of a transaction that is about to be rolled back could read: who administers / owns what
+	n.BranchReads = func(ctx sdk.Context) {
+		for _, d := range w.denoms {
+			_, _ = n.App.TokenFactoryKeeper.GetAuthorityMetadata(ctx, d.denom)
+		}
+		for id := range w.locks {
+			_, _ = n.App.LockupKeeper.GetLockByID(ctx, id)
+		}
+		for id := range w.pos {
+			_, _ = n.App.ConcentratedLiquidityKeeper.GetPosition(ctx, id)
+		}
+	}
 	w.denoms = []*refDenom{
 		{denom: ren0, creator: 0, admin: -1},
 		{denom: ren1, creator: 1, admin: -1},
